@@ -46,7 +46,14 @@ def main():
         rc = rep.finish()
     except AnalysisError as e:
         print(f"ANALYSIS-ERROR property={pid} {e}")
-        sys.exit(2)
+        # what was decided before the analysis stopped stays decided: an obligation that already failed is a violation (exit 1);
+        # with nothing failed so far there is no verdict (exit 2)
+        rep.stats["analysis_incomplete"] = str(e)[:300]
+        try:
+            rc = rep.finish()
+        except Exception:  # pylint: disable=W0718
+            rc = 2
+        sys.exit(1 if rc == 1 else 2)
     except Exception:  # pylint: disable=W0718
         traceback.print_exc()
         print(f"ANALYSIS-ERROR property={pid} internal error in the checker (see traceback)")
